@@ -22,7 +22,7 @@ class C01(CoreProp):
     prop_module = "Props.C01"
     prop_file = "Props/C01.v"
     coq_targets = ["Props/C01.vo", "Run/Judge_Core.vo", "Props/Tables.vo"]
-    sizes = {"quick": 600, "thorough": 20000}
+    sizes = {"quick": 600, "thorough": 12000}
     design_ref = "DESIGN.md section 6/C01"
     rule = ("typed random expression trees over data variables, literals and var-declared variables (80% inside the "
             "property's domain by construction, 20% with off-domain mixes), printed as JS source with random redundant "
